@@ -589,8 +589,10 @@ def expected_samples(c):
             if t + 1 >= n:
                 continue
             ev1 = c["steps"][t + 1].get("event")
-            if ev1 and ev1["kind"] == "restart":
-                continue      # the new instance never receives the force of the last step of the old one
+            if ev1:
+                # the force of the last step before a state is read belongs to the replaced history: a new instance never
+                # receives it, and after a load into the running instance the variables collect no total force at the next step
+                continue
             rel, cont = clk[t + 1]
             elig = rel > 0 and not cont
         if not elig:
@@ -810,6 +812,8 @@ def oracle(c, impl_steps, state=None, files=None, loads=None):
             sig, why = "sample:hideJacobian-without-applied-force", " (hideJacobian, lagged forces, no bias applies a force to distance variable(s) %s)" % hn
         elif hs and len(hs) == len(dbad):
             sig, why = "sample:hideJacobian-applyBias-switched", " (hideJacobian, lagged forces, applyBias switched at run time, distance variable(s) %s)" % hs
+        elif not c["same"] and any(st.get("event", {}).get("kind") == "reload" for st in c["steps"]):
+            sig, why = "sample:reload-stale-total-force", " (lagged forces, state loaded into the running instance)"
         elif c.get("toggle") and not c["same"] and all(not c["vars"][d]["sub"] for d in dbad):
             sig, why = "sample:applyBias-switched-stale-applied-force", " (applyBias switched at run time, lagged forces)"
         elif c.get("scaled") and not c["same"] and c["apply"] and all(not c["vars"][d]["sub"] for d in dbad):
@@ -1086,6 +1090,26 @@ def judge_late(c, steps):
     return None
 
 
+def witness_reload_stale():
+    """W12: lagged forces, applyBias off, variable in bin 0, engine forces 1, 2, 4, 8, 16, 0; the state is saved and loaded into the
+    running instance before step 3 (which re-executes the configuration).  Samples: 1 and 2 before the load; the force 4 of the last
+    step before the load is dropped; 8 and 16 after it: count 4, sum -27."""
+    c = _c1("W12", _v1(), [(0.5, 1.0, False), (0.5, 2.0, False), (0.5, 4.0, False), (0.5, 8.0, False), (0.5, 16.0, False), (0.5, 0.0, False)],
+            full=2, min=0, apply=False)
+    c["steps"][3]["event"] = {"kind": "reload", "fmt": "text"}
+    return c
+
+
+def judge_reload_stale(c, steps):
+    last = steps[-1]
+    if last["cnt"][0] != 4 or last["sum"][0] != -27.0:
+        return ("lagged total forces, engine forces 1, 2, 4, 8, 16, 0 in bin 0, state saved and loaded into the running instance before step 3: the samples are "
+                "1, 2 (before the load) and 8, 16 (after it; the force 4 exerted at the last step before the load is not collected by the variable), count 4 and "
+                "sum -27; the implementation has count %s and sum %s, total force reported at step 3: %s (the value collected at step 2, recorded a second time)"
+                % (last["cnt"][0], last["sum"][0], steps[3]["tf"][0]))
+    return None
+
+
 WITNESSES = ((witness_zero_total, "sample:subtractAppliedForce-zero-total-force", judge_zero_total),
              (witness_zero_total_abf, "sample:subtractAppliedForce-zero-total-force", judge_zero_total_abf),
              (witness_value_zero, "sample:force-dropped-at-value-zero", judge_value_zero),
@@ -1098,6 +1122,7 @@ WITNESSES = ((witness_zero_total, "sample:subtractAppliedForce-zero-total-force"
              (witness_hidej_switched, "sample:hideJacobian-applyBias-switched", judge_hidej_switched),
              (witness_input, "sample:inputPrefix-data", judge_input),
              (witness_restart_zero_mean, "force:periodic-zero-mean", judge_restart_zero_mean),
+             (witness_reload_stale, "sample:reload-stale-total-force", judge_reload_stale),
              (witness_late, "sample:bias-defined-at-run-time-bin0", judge_late),
              (witness_late_sub, "sample:bias-defined-at-run-time-bin0", judge_late))
 
